@@ -139,6 +139,18 @@ static void verify_all(world_t *w, const unsigned char *imprint, size_t n, int h
 		rc = KSI_Signature_verifyWithPolicy(w->sig, h, level, w->policy, &w->vc);
 		vf_count("impl_calls", 1);
 		judge(w, "verifyWithPolicy+ctx", exp, rc, 0, 0, 0, detail);
+		/* the explicit hash and level are arguments of THIS call: they may not stay behind in the caller's context (a later
+		 * verification with the same context and no explicit hash would be judged against them) */
+		if (w->vc.documentHash != NULL || w->vc.docAggrLevel != 0) {
+			vf_fail("caller-context-modified", "%s/verifyWithPolicy+ctx %s: the call left %s in the caller's verification context", PNAME[w->pol], detail, w->vc.documentHash != NULL ? "its explicit document hash" : "its explicit level");
+			w->vc.documentHash = NULL; w->vc.docAggrLevel = 0;
+		}
+		if (h != NULL || level != 0) {
+			/* and the next call with that context and no explicit arguments verifies the signature on its own again */
+			int rc2 = KSI_Signature_verifyWithPolicy(w->sig, NULL, 0, w->policy, &w->vc);
+			vf_count("impl_calls", 1);
+			judge(w, "verifyWithPolicy+ctx-afterwards", expected(w, 0, 0, 0), rc2, 0, 0, 0, detail);
+		}
 		/* (2b) the same helper when the caller's context already carries the signature's own hash and level 0 (e.g. a
 		 * context reused from an earlier verification): the explicitly supplied hash / level must still decide */
 		if (h != NULL || level != 0) {
